@@ -161,6 +161,14 @@ def _judge_clone(it: Interp, orig: int, res) -> List[str]:
                    (not isinstance(ov, (Num, Ident)) and ov == rv)
             if not same and f != "child_on_left":
                 probs.append(f"{f} of the clone is {rv!r}, original has {ov!r}")
+    from sa.absint import Lst as _Lst, Dct as _Dct, Rec as _Rec
+    for f, rv in rc.cur.items():
+        if isinstance(rv, (_Lst, _Dct, _Rec)):
+            for of, ov in list(oc.cur.items()) + list(oc.entry.items()):
+                if ov is rv:
+                    probs.append(f"the clone's .{f} is the very same mutable object as the original's .{of}: changing one "
+                                 f"tree afterwards changes the other")
+                    break
     for e in it.events:
         if e[0] == "store" and e[1] == orig and e[2] in ("left", "right", "parent", "value", "identifier", "id"):
             if e[3] is _MISSING or e[3] != e[4]:
